@@ -350,6 +350,15 @@ class ExtrasMixin:
                 return c["value"]
         return NONE
 
+    def spec_is_bound(self, node, frame):
+        name = node.args[0].value
+        f = frame
+        while f is not None:
+            if name in f.locals:
+                return VBool(True)
+            f = f.parent
+        return VBool(False)
+
     def spec_calls_to(self, node, frame):
         """number of havocked-collaborator invocations whose name ends with the given suffix"""
         suf = node.args[0].value
